@@ -23,7 +23,7 @@ RULE = (
     'template instantiated at every level under the same step name, every combination of per-link parameter modes '
     '{forwarded, defaulted, overridden, concatenated with text, integer} for m plus a second parameter built from the '
     "caller's m and n, also used in a non-argument field; (environments) a dictionary parameter used as "
-    'command.environment, {defaulted, same, other, forwarded, empty, "none"}^2 at two depths x entry given/defaulted; '
+    'command.environment, {defaulted, same, other keys, other value, forwarded, empty, "none"}^2 at two depths x entry given/defaulted; '
     '(references) producer 0-2 workflow levels below and consumer 0-2 forwarding levels below their common ancestor, '
     'which itself is 0-1 levels below the entry workflow; every spelling of the producer location (<a/b/s>, '
     '"<a>"/b/s quoted at every cut, <a>/b/s at every cut, or only a workflow prefix that is completed one level lower '
